@@ -57,6 +57,8 @@ func init() {
 		"zzOpaqueInit":   zzOpaqueInit,
 		"zzJSON":         zzJSON,
 		"zzParamInt":     zzParamInt,
+		"zzRepeat":       func(s *State, a []Value) Value { return int64(1) },
+		"zzIsolated":     zzIsolated,
 		"zzDeepEqual":    func(s *State, a []Value) Value { return s.deepEqual(a[0], a[1], 0) },
 	}
 }
@@ -652,4 +654,79 @@ func zzParamInt(s *State, a []Value) Value {
 		s.abort("job parameter %q is not an integer", name)
 	}
 	return int64(n)
+}
+
+func init() { intrinsics["zzTwin"] = zzTwin }
+
+// resolveDeep materialises a whole (sub)document.
+func (s *State) resolveDeep(v Value, depth int) {
+	if depth > 12 {
+		return
+	}
+	iv := s.resolveIface(v)
+	if iv.T == nil {
+		return
+	}
+	switch x := iv.V.(type) {
+	case MapRef:
+		md := s.mapData(x, false)
+		for _, k := range sortedKeys(md) {
+			s.resolveDeep(md.M[k].V, depth+1)
+		}
+	case Slice:
+		for _, e := range s.sliceElems(x) {
+			s.resolveDeep(e, depth+1)
+		}
+	}
+}
+
+// zzTwin: the document with every float64 leaf f replaced by a json.Number
+// whose spelling identity is the bit pattern of f (shortest formatting:
+// equal spelling <=> equal bits) and whose numeric value is f. Assumes the
+// floats are finite and not negative zero.
+func zzTwin(s *State, a []Value) Value {
+	s.resolveDeep(a[0], 0)
+	return s.twinOf(a[0], 0)
+}
+
+func (s *State) twinOf(v Value, depth int) Value {
+	p := s.W.Pool
+	iv := s.resolveIface(v)
+	if iv.T == nil {
+		return iv
+	}
+	switch x := iv.V.(type) {
+	case MapRef:
+		md := s.mapData(x, false)
+		nd := &MapData{M: map[string]*MapEntry{}}
+		for _, k := range md.Keys {
+			e := md.M[k]
+			nd.M[k] = &MapEntry{K: e.K, V: s.twinOf(e.V, depth+1)}
+			nd.Keys = append(nd.Keys, k)
+		}
+		id := s.heap.alloc(nd, s.W.P.tMap, "twin")
+		return Iface{T: iv.T, V: MapRef{Obj: id}}
+	case Slice:
+		elems := s.sliceElems(x)
+		arr := &Array{E: make([]Value, len(elems))}
+		for i, e := range elems {
+			arr.E[i] = s.twinOf(e, depth+1)
+		}
+		id := s.heap.alloc(arr, s.W.P.tIface, "twin")
+		return Iface{T: iv.T, V: Slice{Obj: id, Len: len(elems), Cap: len(elems)}}
+	}
+	if s.W.identical(iv.T, types.Typ[types.Float64]) {
+		f := s.liftFloat(iv.V)
+		bits := fpBits(f)
+		if bits == nil {
+			s.abort("zzTwin: float leaf without a bit-vector representation")
+		}
+		s.assume(p.Not(p.App("fp.isNaN", SortBool, f)))
+		s.assume(p.Not(p.App("fp.isInfinite", SortBool, f)))
+		s.assume(p.Not(p.Eq(bits, p.BVConst(0x8000000000000000, 64))))
+		id := p.App("bv2nat", SortInt, bits)
+		s.assume(p.Eq(p.UF("numbits", BV(64), id), bits))
+		return Iface{T: s.W.P.tNumber, V: &AbsStr{Id: id}}
+	}
+	return iv
 }
